@@ -195,9 +195,10 @@ class Gen(object):
         elif kind == "cat":
             c = self.pick(sm.CHARS)
             codes = [k for k in sm.ALLOWED_CODES[c] if k != m.cat[c]]
-            node = {"k": "cat", "c": c, "code": self.pick(codes)}
+            node = {"k": "cat", "c": c, "code": self.pick(codes), "tight": self.pick([False, False, True])}
         elif kind == "at":
-            node = {"k": "cat", "c": "@", "code": 12 if m.cat["@"] == 11 else 11, "form": "at"}
+            node = {"k": "cat", "c": "@", "code": 12 if m.cat["@"] == 11 else 11, "form": "at",
+                    "tight": self.pick([False, False, True])}
         elif kind == "ctr":
             op = self.pick(["set", "step", "add", "new"])
             if op == "new":
